@@ -26,7 +26,7 @@ func main() {
 		scen = []netsim.Scenario{
 			{Cfg: netsim.Config{Name: "4x1-byz-nonproposer", Powers: []int64{1, 1, 1, 1}, Byz: []int{3}, ByzMenu: true, TargetHeight: 1, MaxRound: 4, MaxSteps: 400}, Bound: b},
 			{Cfg: netsim.Config{Name: "4x1-byz-proposer", Powers: []int64{1, 1, 1, 1}, ByzProposer: true, ByzMenu: true, TargetHeight: 1, MaxRound: 4, MaxSteps: 400}, Bound: imax(1, b-1)},
-			{Cfg: netsim.Config{Name: "4x1-byz-proposer-AB", Powers: []int64{1, 1, 1, 1}, ByzProposer: true, ByzMenu: true, ByzVariants: []string{"A", "B"}, TargetHeight: 1, MaxRound: 4, MaxSteps: 400}, Bound: b},
+			{Cfg: netsim.Config{Name: "4x1-byz-proposer-AB", Powers: []int64{1, 1, 1, 1}, ByzProposer: true, ByzMenu: true, ByzVariants: []string{"A", "B"}, TargetHeight: 1, MaxRound: 4, MaxSteps: 400}, Bound: b - 1},
 		}
 	}
 	scen = append(scen, netsim.Scenario{Cfg: netsim.Config{Name: "4x1-lock-split", Powers: []int64{1, 1, 1, 1}, Byz: []int{3}, ByzMenu: true, Driver: "lock-split", TargetHeight: 1, MaxRound: 5, MaxSteps: 500}, Bound: b - 1})
